@@ -1689,6 +1689,10 @@ func (c *Conn) saslAuthenticate(data []byte) ([]byte, error) {
 	if _, err := readInt32(&c.rbuf, 4, &respLen); err != nil {
 		return nil, err
 	}
+	if respLen < 0 {
+		// A negative length is not an (empty) token: the answer is malformed.
+		return nil, fmt.Errorf("invalid negative length of sasl authentication response: %d", respLen)
+	}
 
 	resp, _, err := readNewBytes(&c.rbuf, int(respLen), int(respLen))
 	return resp, err
